@@ -105,6 +105,57 @@ def corrupt(text, rng):
     return '\n'.join(lines)
 
 
+# ---------------------------------------------------------------- long tokens (regular-expression backtracking)
+
+LONG1 = 'buffer_end_address_of_the_frame_store_number_1'
+LONG2 = 'offset_of_the_first_visible_scan_line_in_bytes'
+DIGITS = '1234567890123456789012345678'
+LONG_PROGRAM = f'''{LONG1} = 4
+{LONG2} = 2
+.org {LONG1}
+start_of_the_program_area_number_one_of_this_file:
+.fill {LONG1}, {LONG2}
+.fill {LONG1}-{LONG2}, 0
+.fill 1, {DIGITS}-{DIGITS}
+.zero {LONG1}
+.byte {LONG1}, {LONG2}
+.2byte start_of_the_program_area_number_one_of_this_file
+ld8 {LONG1}
+ld16 start_of_the_program_area_number_one_of_this_file + {LONG1}
+mov a
+#if {LONG1} == 4
+nop
+#elif {LONG1} >= {LONG2}
+hlt
+#endif
+.zerountil 60
+'''
+
+
+def long_token_cases(rng, n_garble):
+    """The long-identifier program and its single-token corruptions: every token dropped / doubled, every line truncated after
+    each token, junk appended to every line, and seeded garbles."""
+    lines = LONG_PROGRAM.split('\n')
+    out = [('control', LONG_PROGRAM)]
+    for i, ln in enumerate(lines):
+        toks = ln.split(' ')
+        for j in range(len(toks)):
+            out.append((f'drop token {j} of line {i + 1}', '\n'.join(lines[:i] + [' '.join(toks[:j] + toks[j + 1:])] + lines[i + 1:])))
+            out.append((f'double token {j} of line {i + 1}', '\n'.join(lines[:i] + [' '.join(toks[:j] + [toks[j]] + toks[j:])] + lines[i + 1:])))
+            if j:
+                out.append((f'truncate line {i + 1} after token {j - 1}', '\n'.join(lines[:i] + [' '.join(toks[:j])] + lines[i + 1:])))
+                out.append((f'drop the comma of token {j - 1} of line {i + 1}', '\n'.join(lines[:i] + [' '.join(toks[:j - 1] + [toks[j - 1].rstrip(',')] + toks[j:])] + lines[i + 1:])))
+        if ln:
+            for junk in ('"', ']', '=', '?', ' "x', ',', ' ,', ':'):
+                out.append((f'append {junk!r} to line {i + 1}', '\n'.join(lines[:i] + [ln + junk] + lines[i + 1:])))
+    for _ in range(n_garble):
+        t = LONG_PROGRAM
+        for _k in range(rng.choice([1, 1, 2])):
+            t = corrupt(t, rng)
+        out.append(('seeded corruption', t))
+    return out
+
+
 def corpus_small_cases():
     """(config text, {files}, main) for small repository programs."""
     out = []
@@ -137,7 +188,7 @@ def run(chk):
                 'exit status). (c) seeded corruptions (dropped / duplicated / garbled tokens and lines, swapped lines, '
                 'truncations, zero-length directives, junk lines) of rendered and repository programs: every observation trace '
                 'must be accepted. (d) fatal injections (unresolvable label, unknown instruction, statement no variant accepts, '
-                'value its field cannot hold) into accepted programs must never end in exit_ok. '
+                'value its field cannot hold) into accepted programs must never end in exit_ok. (e) a program whose identifiers are 46 characters long and whose numbers have 28 digits, with every single token dropped / doubled, every line truncated after each token, every comma dropped, junk appended to every line, plus seeded corruptions: every run must terminate (a pattern matcher whose work doubles per character does not) and be accepted by Trace_Outcome.tla. '
                 'Non-trivial = distinct (program text, format) whose run exercised a rejection or a zero-length line.')
     chk.assumptions = ['termination is observed with a 10 s watchdog (programs assemble in milliseconds)',
                        'no oracle on whether corrupted text is accepted - only the implications of the statement',
@@ -259,4 +310,18 @@ def run(chk):
             chk.violation(f'success reported for a program containing {m[0]}: "{m[1]}" at the {m[2]}', c, {'status': 'err'}, {'status': 'ok', 'image': o[3]},
                           {'kind': 'fatal', 'what': m[0]})
     chk.notes['fatal_injections'] = len(fcases)
+    # (e) long identifiers and digit strings: the same corruptions must still terminate (pattern matching must not blow up)
+    lt = long_token_cases(rng, 300 if quick else 3000)
+    lcases = [{'config': carrier_yaml(), 'files': {'main.asm': t}, 'pretty': None, 'timeout': 10.0} for _w, t in lt]
+    lobs = runner.pmap(_obs_inproc, lcases, chunksize=4)
+    acc = tlc_accept(chk, [o[0] for o in lobs])
+    for i, ((w, t), c, o) in enumerate(zip(lt, lcases, lobs)):
+        chk.traces += 1
+        chk.nontriv(('long', t))
+        if w == 'control' and o[1] != 'ok':
+            chk.violation(f'the long-identifier control program is rejected: {o[2][:120]}', c, {'status': 'ok'}, {'status': o[1], 'msg': o[2]}, {'kind': 'control-long'})
+        elif i not in acc:
+            chk.violation(f'long-token program ({w}): observation {o[0]} is not a behaviour of Outcome.tla: {o[2][:100]}', c, None,
+                          {'events': o[0], 'msg': o[2]}, {'kind': 'trace', 'events': '>'.join(o[0])})
+    chk.notes['long_token_cases'] = len(lt)
     chk.exhaustive = False
